@@ -83,16 +83,17 @@ def run(ck):
     ck.canary("S->C: flipped expected read result", not vlib.read_ndjson(cr)[0]["match"])
 
     # ---- C->S
-    shards = vlib.NCPU
+    # thorough traces are ~8x larger: more, smaller shards and fewer TLC processes at a time keep memory bounded
+    shards = 96 if ck.thorough else vlib.NCPU
     def drive(i):
         tp = os.path.join(ck.work, "trace_%02d.ndjson" % i)
         ck.run_vh(["drive", "C06", "-out", tp, "-tier", ck.tier, "-seed", ck.seed, "-shard", i, "-shards", shards])
         return tp
-    traces = vlib.parallel(drive, range(shards))
+    traces = vlib.parallel(drive, range(shards), n=8)
     def val(tp):
         return ck.validate_segments("Bits_Trace", "trace/Bits_Trace.cfg", tp, timeout=3000, name="trace_" + os.path.basename(tp)[6:8])
     nontrivial = 0
-    for tp, (res, rejected) in zip(traces, vlib.parallel(val, traces)):
+    for tp, (res, rejected) in zip(traces, vlib.parallel(val, traces, n=8 if ck.thorough else vlib.NCPU)):
         for rj in rejected:
             e = rj["event"]
             ck.report(key_of(e), "recorded call is not a step of Bits: segment at line %d accepted %d of %d events; rejected event %s" % (
